@@ -225,8 +225,8 @@ func (m *Manager[T]) scanHelper(id string, nodes []data.NodeEdge) ([]data.NodeEd
 }
 
 func (m *Manager[T]) scan(id string) error {
-	verifEvent("manager.scanStart", m.nodeType)
-	defer verifEvent("manager.scanDone", m.nodeType)
+	verifEvent("manager.scanStart", m.nodeType, m.root)
+	defer verifEvent("manager.scanDone", m.nodeType, m.root)
 	nodes, err := m.scanHelper(id, []data.NodeEdge{})
 	if err != nil {
 		return err
@@ -248,7 +248,7 @@ func (m *Manager[T]) scan(id string) error {
 		}
 
 		// Need to create a new client
-		verifEvent("manager.beforeConstruct", m.nodeType, key)
+		verifEvent("manager.beforeConstruct", m.nodeType, m.root, key)
 		cs, err := newClientState(m.nc, m.construct, n)
 
 		if err != nil {
